@@ -1,81 +1,44 @@
 /-
   Driver.Sha1Ripemd — line-protocol ops `hash.sha1`, `hash.ripemd160`, `hctx.sha1`, `hctx.ripemd160`
-  (AGENT_GUIDE §6).  `impl` runs the code-shaped contexts, `spec` the standard function on the bytes fed since the
-  last reset (the abstract state of property C02).
+  (AGENT_GUIDE §6).  `impl` runs the code-shaped contexts through `Cx.HashProg.runProg` (the machine the C02
+  theorems are about), `spec` runs the abstract family `famSpec` (state = bytes since the last reset).
 -/
 import CxVerif.Util.Proto
+import CxVerif.Impl.HashProg
 import CxVerif.Spec.Sha1
 import CxVerif.Spec.Ripemd160
 import CxVerif.Impl.Sha1
 import CxVerif.Impl.Ripemd160
 namespace Cx.Driver.Sha1Ripemd
-open Cx
+open Cx Cx.HashProg
 
-/-- the public API of one context type -/
-structure CtxApi (C : Type) where
-  new : C
-  update : C → Bytes → Option C
-  update_mut : C → Bytes → Option C
-  reset : C → C
-  finalize : C → Option Bytes
-  finalize_reset : C → Option (C × Bytes)
+/-- one op token: `u<hex>` update, `m<hex>` update_mut, `c` clone, `x` swap, `r` reset, `F` finalize_reset,
+    `d` finalize of a clone -/
+def parseOp (t : String) : Option Op :=
+  match t.toList with
+  | 'u' :: hx => (Hex.decode (String.ofList hx)).map Op.update
+  | 'm' :: hx => (Hex.decode (String.ofList hx)).map Op.update_mut
+  | ['c'] => some Op.clone
+  | ['x'] => some Op.swap
+  | ['r'] => some Op.reset
+  | ['F'] => some Op.finalize_reset
+  | ['d'] => some Op.finalize
+  | _ => none
 
-def sha1Api : CtxApi Cx.Impl.Sha1.Context :=
-  open Cx.Impl.Sha1.Context in ⟨new, update, update_mut, reset, finalize, finalize_reset⟩
-def ripemdApi : CtxApi Cx.Impl.Ripemd160.Context :=
-  open Cx.Impl.Ripemd160.Context in ⟨new, update, update_mut, reset, finalize, finalize_reset⟩
+def parseProg (s : String) : Option (List Op) := (s.splitOn ";").mapM parseOp
 
-/-- the abstract context: the bytes since the last reset -/
-def absApi (h : Bytes → Bytes) : CtxApi Bytes :=
-  ⟨[], fun s b => some (s ++ b), fun s b => some (s ++ b), fun _ => [], fun s => some (h s),
-   fun s => some ([], h s)⟩
+def showOuts : Option (List Bytes) → String
+  | none => "PANIC"
+  | some [] => "-"
+  | some outs => ",".intercalate (outs.map Hex.encode)
 
-inductive Res where
-  | ok (outs : List Bytes)
-  | panic
-  | bad
-
-/-- run a history: ops separated by `;`, see AGENT_GUIDE §6 -/
-def runProg {C : Type} (api : CtxApi C) : List String → C → List C → List Bytes → Res
-  | [], _, _, outs => .ok outs.reverse
-  | op :: rest, cur, stack, outs =>
-    match op.toList with
-    | 'u' :: hx => match Hex.decode (String.ofList hx) with
-      | none => .bad
-      | some b => match api.update cur b with
-        | none => .panic
-        | some c => runProg api rest c stack outs
-    | 'm' :: hx => match Hex.decode (String.ofList hx) with
-      | none => .bad
-      | some b => match api.update_mut cur b with
-        | none => .panic
-        | some c => runProg api rest c stack outs
-    | ['c'] => runProg api rest cur (cur :: stack) outs
-    | ['x'] => match stack with
-      | [] => runProg api rest cur stack outs
-      | t :: st => runProg api rest t (cur :: st) outs
-    | ['r'] => runProg api rest (api.reset cur) stack outs
-    | ['F'] => match api.finalize_reset cur with
-      | none => .panic
-      | some (c, d) => runProg api rest c stack (d :: outs)
-    | ['d'] => match api.finalize cur with
-      | none => .panic
-      | some d => runProg api rest cur stack (d :: outs)
-    | _ => .bad
-
-def showRes : Res → Option String
-  | .ok [] => some "-"
-  | .ok outs => some (",".intercalate (outs.map Hex.encode))
-  | .panic => some "PANIC"
-  | .bad => none
-
-def hctx {C : Type} (api : CtxApi C) : Handler :=
-  h1 fun prog => showRes (runProg api (prog.splitOn ";") api.new [] [])
+def hctx {γ : Type} (F : Family γ) : Handler :=
+  h1 fun prog => (parseProg prog).map fun ops => showOuts (runProg F ops F.new [] [])
 
 /-- `hash.<alg> msg` = one-shot function, then `Context::new().update(msg).finalize()` -/
-def hashOp {C : Type} (oneShot : Bytes → Option Bytes) (api : CtxApi C) : Handler :=
+def hashOp {γ : Type} (oneShot : Bytes → Option Bytes) (F : Family γ) : Handler :=
   h1 fun a => (hexArg a).map fun msg =>
-    match oneShot msg, (api.update api.new msg).bind api.finalize with
+    match oneShot msg, (F.update F.new msg).bind F.finalize with
     | some d1, some d2 => Hex.encode d1 ++ "," ++ Hex.encode d2
     | _, _ => "PANIC"
 
@@ -83,10 +46,10 @@ def hashSpec (h : Bytes → Bytes) : Handler :=
   h1 fun a => (hexArg a).map fun msg => Hex.encode (h msg) ++ "," ++ Hex.encode (h msg)
 
 def ops : List OpEntry := [
-  ⟨"hash.sha1", hashOp Cx.Impl.Sha1.sha1 sha1Api, hashSpec Cx.Spec.Sha1.sha1⟩,
-  ⟨"hash.ripemd160", hashOp Cx.Impl.Ripemd160.ripemd160 ripemdApi, hashSpec Cx.Spec.Ripemd160.ripemd160⟩,
-  ⟨"hctx.sha1", hctx sha1Api, hctx (absApi Cx.Spec.Sha1.sha1)⟩,
-  ⟨"hctx.ripemd160", hctx ripemdApi, hctx (absApi Cx.Spec.Ripemd160.ripemd160)⟩
+  ⟨"hash.sha1", hashOp Cx.Impl.Sha1.sha1 Cx.Impl.Sha1.fam, hashSpec Cx.Spec.Sha1.sha1⟩,
+  ⟨"hash.ripemd160", hashOp Cx.Impl.Ripemd160.ripemd160 Cx.Impl.Ripemd160.fam, hashSpec Cx.Spec.Ripemd160.ripemd160⟩,
+  ⟨"hctx.sha1", hctx Cx.Impl.Sha1.fam, hctx (famSpec Cx.Spec.Sha1.sha1)⟩,
+  ⟨"hctx.ripemd160", hctx Cx.Impl.Ripemd160.fam, hctx (famSpec Cx.Spec.Ripemd160.ripemd160)⟩
 ]
 
 end Cx.Driver.Sha1Ripemd
